@@ -79,6 +79,7 @@ func runC04(c *Ctx) {
 	L.Rule("R-C04-TRANSFER", "store.Set reports whether it stored: true exactly on paths that put i.Value into the map", 2)
 	L.Rule("R-C04-CLEAR", "Clear drains: non-update buffered items reported once, updates/markers never; store.Clear(c.onEvict) on every path; lockedMap.Clear reports each entry once; Close passes Clear first", 5)
 	L.Rule("R-C04-WRAP", "onEvict/onReject wrappers chain to onExit(item.Value) exactly once; callback fields assigned once in NewCache; applier's onEvict forwards", 6)
+	L.Rule("R-C04-VICTIMS", "inside policy.Add a key is forgotten (evict.del) only on the path that also reports it as a victim: arg-min, reject-before-evict and victim bookkeeping (C09's rules)", 6)
 	L.Rule("R-C04-SWEEP", "expiry sweep: per key passing the re-check one policy.Del, one store.Del, one report", 1)
 
 	// ---- R-C04-SET
@@ -385,6 +386,7 @@ func runC04(c *Ctx) {
 
 	// ---- R-C04-CLEAR
 	clearDrainRule(c, "R-C04-CLEAR")
+	importRules(c, runC09, map[string]string{"R-C09-VICTIM": "R-C04-VICTIMS", "R-C09-REJECT": "R-C04-VICTIMS"})
 	lockedMapClearRule(c, "R-C04-CLEAR")
 	c.Group("R-C04-CLEAR", "shardedMap.Clear", func() {
 		fn := P.Fn("ristretto", "shardedMap", "Clear")
